@@ -102,6 +102,15 @@ func genRelay(t *rapid.T) string {
 
 func genArbitraryDoc(t *rapid.T) string {
 	doc := etree.NewDocument()
+	// what stands before and after the root element belongs to the document: XML declaration, comments, processing
+	// instructions (a caller that parsed a file or a template hands exactly that over)
+	level := rapid.IntRange(0, 3).Draw(t, "docLevelTokens")
+	if level&1 != 0 {
+		doc.CreateProcInst("xml", `version="1.0" encoding="UTF-8"`)
+		if rapid.Bool().Draw(t, "docLeadingComment") {
+			doc.CreateComment(" issued by the portal ")
+		}
+	}
 	root := doc.CreateElement("samlp:AuthnRequest")
 	root.CreateAttr("xmlns:samlp", h.NSProtocol)
 	root.CreateAttr("ID", "_"+rapid.StringMatching(`[a-f0-9]{8}`).Draw(t, "docID"))
@@ -128,6 +137,12 @@ func genArbitraryDoc(t *rapid.T) string {
 		e.SetText(h.GenText(h.TextOpts{MaxLen: 5}).Draw(t, "docText"))
 		if rapid.Bool().Draw(t, "docAttr") {
 			e.CreateAttr("v", h.GenText(h.TextOpts{MaxLen: 3}).Draw(t, "docAttrV"))
+		}
+	}
+	if level&2 != 0 {
+		doc.CreateComment("trailer")
+		if rapid.Bool().Draw(t, "docTrailingPI") {
+			doc.CreateProcInst("audit", "id=7")
 		}
 	}
 	s, _ := doc.WriteToString()
